@@ -130,6 +130,17 @@ CLAIMED = {
              "Correspondence: Go scalars vs model on elements from histories in all representations and batches 0..300.",
         note="fp inversion of gnark-crypto is compared, not verified.",
         tech="Coq proof (field identities, batch-inversion theorem) + differential correspondence", ref="DESIGN.md 6.11"),
+    "C18": dict(
+        text="Theorems over every commutative ring with partial inverse and EVERY domain size n>=1 (premises: differences of "
+             "distinct nodes and t-node invertible; discharged for Fr, n=256 by kernel computation): the weight tables equal "
+             "their defining products/inverses with the code's index layout and accessors; A'(i) recursion; "
+             "ComputeBarycentricCoefficients returns b_i(t)=A(t)/(A'(i)(t-i)); partial fractions sum_i 1/(A'(i)(t-i))=1/A(t) "
+             "hence sum_i b_i = 1; DivideOnDomain k f has (f_i-f_k)/(i-k) off the diagonal and the coded diagonal formula, "
+             "and <DivideOnDomain k f, b(t)> = (<f,b(t)>-f_k)/(t-k) for every k and every t outside the domain. PARTIAL: the "
+             "link to coefficient form (<f,b(z)> = p(z); quotient value at k) is decided by correspondence against the "
+             "model's coefficient-form interpolation (all 256 k, structured f, all table entries via hook).",
+        note="Coefficient-form interpolation theorem not proved.",
+        tech="Coq proof (induction on the domain size, fraction algebra with explicit invertibility) + differential correspondence", ref="DESIGN.md 6.18"),
     "C19": dict(
         text="Theorems for every list / pointer list: ElementsToBytes, BatchToBytesUncompressed, BatchMapToScalarField equal the "
              "single-element functions position by position (via the batch-inversion theorem, Z=1 fast path included); "
